@@ -2,23 +2,26 @@
   Props/C19 — diagrams show exactly the system; heat colours and labels follow the losses.
 
   Subject: `Diagram.diag` (Model/Diagram.lean), the structure `diagram._diag` hands to pydot:
-  clusters with member nodes, top-level nodes, the `Scale` legend, edges, attribute dictionaries.
+  clusters with member nodes, top-level nodes, the legend, edges, attribute dictionaries — for the code after the
+  fixes 26e3f60 (quoted node identifiers), e71248f (explicit label), f2aec6f (fresh legend name), c0d57b9 (clamped mix).
   The harness (harness/props/c19.py) compares that structure with Graphviz's own JSON output of
   `make_diag` / `make_hdiag` on every run, and evaluates the property's statement directly on that output.
 
-   1. `nodes_exact`           one node per component, each once, plus `Scale` iff heat
-   2. `edges_exact`           the edge list is the parent → child list
+   1. `nodes_exact`, `nodes_nodup`   one node per component, each once, plus a legend with a fresh name iff heat
+      `nodes_exact_rendered_partial`  the same for the identifiers as Graphviz reads them (`_q(name)` round trip)
+   2. `edges_exact`, `edges_rendered_partial`   the edge list is the parent → child list
    3. `clusters_on/off`, `clusters`   cluster membership = non-empty group; no clusters when grouping is off
-   4. `override_precedence`, `heat_overrides`   default → class name → component name; heat then sets three keys
+   4. `override_precedence`, `heat_overrides`   default → class name → component name, label = name if none given;
+      heat then sets three keys
    5. `config_unchanged`      the caller's configuration is the same value after the call (see the note there)
    6. `heat_order`, `heat_colour_order`, `colour_warm`, `colour_cold`, `heat_max_warm`, `heat_zero_cold`,
       `heat_colour_defined`, `legend_label`
    7. `nice_float_3sig`, `nice_float_si_range`   three significant digits, for every positive value
    8. `heat_loss_weighted`, `heat_label_loss`    the label's loss is Σ dₚ·Lossₚ / Σ dₚ
 
-  What is *not* in the model is pydot's and Graphviz' reading of the name strings.  For names containing `:`
-  that reading is modelled just far enough (`renderedId`) to state finding F23 as a theorem:
-  `nodes_exact_rendered_partial` (no `:` in any name) and `c19_nodes_full_fails` (`A:x`, `A:y` collapse).
+  Remaining gap (finding F23f): DOT cannot express a name with an odd run of backslashes directly before a `"` or
+  at its end (`a\`, `b\"c`); `nodes_exact_rendered_partial` excludes exactly those names (`nameOk`), the full
+  statement `C19_nodes_full` stays in the file and `c19_nodes_full_fails` refutes it on the witness `a\`.
 -/
 import SysLoss.Proofs.Diagram
 
@@ -34,11 +37,14 @@ variable {sn : String} {comps : List CompIn} {edges : List (String × String)} {
 
 /-! ### 1. nodes -/
 
+/-- the legend's name: `Scale`, with as many `_` appended as needed to differ from every component -/
+def legendName (comps : List CompIn) : String := freshScale (comps.map CompIn.name)
+
 /-- **nodes_exact.** The node names the graph declares (cluster members, top level, legend) are the component
-    names — a permutation, so each exactly as often as it occurs in the system, i.e. once — plus `Scale`
+    names — a permutation, so each exactly as often as it occurs in the system, i.e. once — plus the legend
     exactly in heat mode. -/
 theorem nodes_exact (h : diag sn comps edges cfg group heat = .ok d) :
-    d.nodeNames.Perm (comps.map (·.name) ++ (if heat.isSome then ["Scale"] else [])) := by
+    d.nodeNames.Perm (comps.map (·.name) ++ (if heat.isSome then [legendName comps] else [])) := by
   obtain ⟨hcl, htop, hsc, _⟩ := diag_inv h
   have e1 : d.clusters.flatMap (fun c => c.nodes.map (·.name))
       = (layout comps group).1.flatMap (fun gm => gm.2.map (·.name)) := by
@@ -47,12 +53,12 @@ theorem nodes_exact (h : diag sn comps edges cfg group heat = .ok d) :
     exact mapE_map _ _ _ mkNode_name _ _ (mkCluster_inv hR).2.2.1
   have e2 : d.nodes.map (·.name) = (layout comps group).2.map (·.name) :=
     mapE_map _ _ _ mkNode_name _ _ htop
-  have e3 : d.scale.toList.map (·.name) = (if heat.isSome then ["Scale"] else []) := by
+  have e3 : d.scale.toList.map (·.name) = (if heat.isSome then [legendName comps] else []) := by
     cases heat with
     | none => simp only at hsc; simp [hsc]
     | some hh =>
       obtain ⟨gconf, s, _, hs, hd⟩ := hsc
-      simp [hd, (mkScale_inv hs).1]
+      simp [hd, (mkScale_inv hs).1, legendName]
   unfold DotGraph.nodeNames
   rw [e1, e2, e3]
   refine List.Perm.append_right _ ?_
@@ -60,10 +66,23 @@ theorem nodes_exact (h : diag sn comps edges cfg group heat = .ok d) :
   rw [List.map_append, List.map_flatMap] at hp
   exact hp
 
-/-- with distinct component names, no node is declared twice -/
+/-- the legend is never confused with a component (also not with one called `Scale`) -/
+theorem legend_fresh (comps : List CompIn) : legendName comps ∉ comps.map (·.name) :=
+  freshScale_not_mem _
+
+/-- with distinct component names, no node is declared twice — legend included -/
 theorem nodes_nodup (h : diag sn comps edges cfg group heat = .ok d)
-    (hn : (comps.map (·.name) ++ (if heat.isSome then ["Scale"] else [])).Nodup) : d.nodeNames.Nodup :=
-  (nodes_exact h).nodup_iff.mpr hn
+    (hn : (comps.map (·.name)).Nodup) : d.nodeNames.Nodup := by
+  refine (nodes_exact h).nodup_iff.mpr ?_
+  split_ifs
+  · rw [List.nodup_append]
+    refine ⟨hn, by simp, ?_⟩
+    intro a ha b hb
+    simp only [List.mem_singleton] at hb
+    subst hb
+    intro e; subst e
+    exact legend_fresh comps ha
+  · simpa using hn
 
 /-! ### 2. edges -/
 
@@ -216,28 +235,36 @@ theorem node_origin (h : diag sn comps edges cfg group heat = .ok d) (n : DNode)
 
 /-- **override_precedence.** For every component node: each attribute has the value of the component's own
     entry in `config["node"]` if that entry sets it, else of its class's entry, else of the default entry — in the
-    plain diagram for every key, in the heat diagram for every key but `fillcolor`, `fontcolor`, `label`. -/
+    plain diagram for every key, in the heat diagram for every key but `fillcolor`, `fontcolor`, `label`; and the
+    plain diagram's `label` is the component's name when no level sets one. -/
 theorem override_precedence (h : diag sn comps edges cfg group heat = .ok d) (n : DNode)
     (hn : n ∈ d.allNodes) :
     ∃ c ∈ comps, ∃ ns, n.name = c.name ∧ (effConf cfg).node = some ns ∧
-      ∀ k, (heat = none ∨ (k ≠ "fillcolor" ∧ k ≠ "fontcolor" ∧ k ≠ "label")) →
-        aget n.attrs k = specAttr ns c.kind.className c.name k := by
+      (∀ k, k ≠ "label" → (heat = none ∨ (k ≠ "fillcolor" ∧ k ≠ "fontcolor")) →
+        aget n.attrs k = specAttr ns c.kind.className c.name k) ∧
+      (heat = none →
+        aget n.attrs "label" = some ((specAttr ns c.kind.className c.name "label").getD c.name)) := by
   obtain ⟨c, hc, hm⟩ := node_origin h n hn
   obtain ⟨hname, ns, conf, hns, hconf, hattrs⟩ := mkNode_inv hm
-  refine ⟨c, hc, ns, hname, hns, ?_⟩
-  intro k hk
-  cases heat with
-  | none =>
+  refine ⟨c, hc, ns, hname, hns, ?_, ?_⟩
+  · intro k hkl hk
+    cases heat with
+    | none =>
+      simp only [Option.map_none] at hattrs
+      rw [hattrs, aget_withLabel, if_neg hkl]; exact nodeConf_spec hconf k
+    | some hh =>
+      simp only [Option.map_some] at hattrs
+      obtain ⟨conf', hh', hattrs⟩ := hattrs
+      rcases hk with hk | ⟨k1, k2⟩
+      · cases hk
+      · obtain ⟨r, col, _, _, e⟩ := heatNode_inv hh'
+        rw [hattrs, aget_withLabel, if_neg hkl, e, aget_aset_ne _ _ _ _ (Ne.symm hkl),
+          aget_aset_ne _ _ _ _ (Ne.symm k2), aget_aset_ne _ _ _ _ (Ne.symm k1)]
+        exact nodeConf_spec hconf k
+  · intro hnone
+    subst hnone
     simp only [Option.map_none] at hattrs
-    rw [hattrs]; exact nodeConf_spec hconf k
-  | some hh =>
-    simp only [Option.map_some] at hattrs
-    rcases hk with hk | ⟨k1, k2, k3⟩
-    · cases hk
-    · obtain ⟨r, col, _, _, e⟩ := heatNode_inv hattrs
-      rw [e, aget_aset_ne _ _ _ _ (Ne.symm k3), aget_aset_ne _ _ _ _ (Ne.symm k2),
-        aget_aset_ne _ _ _ _ (Ne.symm k1)]
-      exact nodeConf_spec hconf k
+    rw [hattrs, aget_withLabel, if_pos rfl, nodeConf_spec hconf]
 
 /-- cluster attributes: the group's own entry in `config["cluster"]`, else the default entry -/
 theorem cluster_precedence {cs : Sect} {g : String} {conf : Attrs} (h : clusterConf cs g = .ok conf)
@@ -265,15 +292,18 @@ theorem heat_overrides {hh : HeatIn Rat} (h : diag sn comps edges cfg group (som
   obtain ⟨c, hc, hm⟩ := node_origin h n hn
   obtain ⟨hname, ns, conf, hns, hconf, hattrs⟩ := mkNode_inv hm
   simp only [Option.map_some] at hattrs
-  obtain ⟨r, col, hfind, hcol, e⟩ := heatNode_inv hattrs
+  obtain ⟨conf', hh', hattrs⟩ := hattrs
+  obtain ⟨r, col, hfind, hcol, e⟩ := heatNode_inv hh'
   have hr : r ∈ prepLoss hh := List.mem_of_find?_eq_some hfind
   have hrn : r.name = c.name := by
     have := List.find?_some hfind
     simpa using this
   refine ⟨r, hr, by rw [hrn, hname], ⟨col, hcol, ?_⟩, ?_, ?_⟩
-  · rw [e, aget_aset_ne _ _ _ _ (by decide), aget_aset_ne _ _ _ _ (by decide), aget_aset_self]
-  · rw [e, aget_aset_ne _ _ _ _ (by decide), aget_aset_self]
-  · rw [e, aget_aset_self, hname]
+  · rw [hattrs, aget_withLabel, if_neg (by decide), e, aget_aset_ne _ _ _ _ (by decide),
+      aget_aset_ne _ _ _ _ (by decide), aget_aset_self]
+  · rw [hattrs, aget_withLabel, if_neg (by decide), e, aget_aset_ne _ _ _ _ (by decide), aget_aset_self]
+  · rw [hattrs, aget_withLabel, if_pos rfl, e, aget_aset_self, hname]
+    rfl
 
 /-! ### 5. configuration -/
 
@@ -296,9 +326,8 @@ theorem config_empty_is_default : effConf {} = defConf := rfl
 section
 variable {α : Type} [Field α] [LinearOrder α] [IsStrictOrderedRing α]
 
-/-- **heat_order.** Colours are ordered as the losses: a larger loss never has a smaller mix (whenever the
-    largest loss is not negative). -/
-theorem heat_order {h : HeatIn α} (hmax : 0 ≤ maxOf (heatLosses h)) {a b : HeatRow α}
+/-- the `Mix` column is monotone in the loss whenever the largest loss is not negative -/
+theorem mix_order {h : HeatIn α} (hmax : 0 ≤ maxOf (heatLosses h)) {a b : HeatRow α}
     (ha : a ∈ prepLoss h) (hb : b ∈ prepLoss h) (hab : a.loss ≤ b.loss) : a.mix ≤ b.mix :=
   mix_mono hmax ha hb hab
 
@@ -320,6 +349,24 @@ theorem heat_zero_cold {h : HeatIn α} {r : HeatRow α} (hr : r ∈ prepLoss h) 
 
 end
 
+/-- **heat_order.** Colours are ordered as the losses, without any assumption on the losses: the mix `_gcolor`
+    actually uses (clamped to `[0, 1]`) never decreases when the loss increases.  (If even the largest loss is
+    negative every quotient `loss / max` is ≥ 1 and all components are fully warm.) -/
+theorem heat_order {h : HeatIn ℚ} {a b : HeatRow ℚ}
+    (ha : a ∈ prepLoss h) (hb : b ∈ prepLoss h) (hab : a.loss ≤ b.loss) :
+    clamp01 a.mix ≤ clamp01 b.mix := by
+  rcases le_or_gt 0 (maxOf (heatLosses h)) with hmax | hneg
+  · exact clamp01_mono (mix_mono hmax ha hb hab)
+  · have one : ∀ r ∈ prepLoss h, clamp01 r.mix = 1 := by
+      intro r hr
+      obtain ⟨_, _, _, e, hl⟩ := prepLoss_mem hr
+      have hle := le_maxOf hl
+      have : 1 ≤ r.mix := by
+        rw [e, mixDen_of_ne _ hneg.ne, le_div_iff_of_neg hneg]
+        linarith
+      rw [clamp01_eq, max_eq_left (by linarith), min_eq_right this]
+    rw [one a ha, one b hb]
+
 /-- channel-wise monotone colour: a larger mix is at least as red and at most as green and blue -/
 theorem heat_colour_order {m m' : ℚ} (h : m ≤ m') {c c' : ℕ × ℕ × ℕ}
     (hc : gchannels m = .ok c) (hc' : gchannels m' = .ok c') :
@@ -331,17 +378,19 @@ theorem colour_warm : gcolor 1 = .ok "#ff1210" := by decide +kernel
 /-- mix 0 is exactly the cold colour -/
 theorem colour_cold : gcolor 0 = .ok "#2120ff" := by decide +kernel
 
-/-- with non-negative losses every component has a colour (`to_hex` does not raise) -/
-theorem heat_colour_defined {h : HeatIn ℚ} (hpos : ∀ l ∈ heatLosses h, 0 ≤ l) {r : HeatRow ℚ}
-    (hr : r ∈ prepLoss h) : ∃ col, gcolor r.mix = .ok col := by
-  obtain ⟨h0, h1⟩ := mix_range hpos hr
-  obtain ⟨c, hc⟩ := gchannels_ok h0 h1
-  exact ⟨hexColor c, by simp [gcolor, hc, Except.map]⟩
+/-- every component has a colour, whatever the losses (`to_hex` is never handed a value outside `[0, 1]`) -/
+theorem heat_colour_defined (m : ℚ) : ∃ col, gcolor m = .ok col := gcolor_ok m
 
-/-- **legend.** The heat diagram has the legend node `Scale` whose label shows `_nice_float` of the largest
-    loss (in braces for top-bottom layouts). -/
+/-- inside `[0, 1]` (always the case for non-negative losses, `mix_range`) the clamp changes nothing -/
+theorem clamp_id {h : HeatIn ℚ} (hpos : ∀ l ∈ heatLosses h, 0 ≤ l) {r : HeatRow ℚ}
+    (hr : r ∈ prepLoss h) : clamp01 r.mix = r.mix := by
+  obtain ⟨h0, h1⟩ := mix_range hpos hr
+  exact clamp01_of_range h0 h1
+
+/-- **legend.** The heat diagram has the legend node (`Scale`, or `Scale_…` if a component has that name) whose
+    label shows `_nice_float` of the largest loss (in braces for top-bottom layouts). -/
 theorem legend_label {hh : HeatIn Rat} (h : diag sn comps edges cfg group (some hh) = .ok d) :
-    ∃ s gconf rd, d.scale = some s ∧ s.name = "Scale" ∧ (effConf cfg).graph = some gconf ∧
+    ∃ s gconf rd, d.scale = some s ∧ s.name = legendName comps ∧ (effConf cfg).graph = some gconf ∧
       aget gconf "rankdir" = some rd ∧
       aget s.attrs "label" = some
         (if rd = "TB" ∨ rd = "BT" then "{" ++ (niceFloat (maxOf (heatLosses hh)) ++ "W|  |  | 0W") ++ "}"
@@ -393,71 +442,91 @@ theorem heat_label_loss {h : HeatIn α} {r : HeatRow α} (hr : r ∈ prepLoss h)
 
 end
 
-/-! ### finding F23: names containing `:` -/
+/-! ### node identifiers as Graphviz reads them (fixes F23, F23b, F23c; remaining: F23f) -/
 
-theorem renderedId_of_no_colon (name : String) (h : ':' ∉ name.toList) : renderedId name = name := by
-  unfold renderedId
-  simp only
-  have tw : ∀ l : List Char, ':' ∉ l → l.takeWhile (· != ':') = l := by
-    intro l
-    induction l with
-    | nil => intro _; rfl
-    | cons a t ih =>
-      intro hl
-      have ha : a ≠ ':' := fun e => hl (e ▸ List.mem_cons_self)
-      have ht : ':' ∉ t := fun e => hl (List.mem_cons_of_mem _ e)
-      simp [ha, ih ht]
-  have := tw _ h
-  rw [this]
-  split_ifs with h1 h2
-  · rfl
-  · omega
-  · rfl
+/-- the legend's name is one DOT can express -/
+theorem legendName_ok (comps : List CompIn) : nameOk (legendName comps) = true := by
+  have key : ∀ (names : List String) (fuel : ℕ) (s : String), '\\' ∉ s.toList →
+      '\\' ∉ (freshFrom names fuel s).toList := by
+    intro names fuel
+    induction fuel with
+    | zero => intro s hs; exact hs
+    | succ k ih =>
+      intro s hs
+      unfold freshFrom
+      split_ifs
+      · apply ih
+        rw [String.toList_append]
+        simp only [List.mem_append, not_or]
+        exact ⟨hs, by decide⟩
+      · exact hs
+  exact bsOk_of_no_backslash _ (key _ _ "Scale" (by decide))
 
-/-- **nodes_exact, as Graphviz reads the names (partial: no `:` in any component name).** -/
+/-- names containing `:`, `"`, `<`, `>`, `{`, `}`, `|`, spaces, DOT keywords … are all read back as themselves -/
+theorem renderedId_of_no_backslash (name : String) (h : '\\' ∉ name.toList) : renderedId name = some name :=
+  renderedId_eq name (bsOk_of_no_backslash _ h)
+
+/-- **nodes_exact, as Graphviz reads the identifiers** (partial: every component name is one DOT can express,
+    `nameOk` — no odd run of backslashes directly before a `"` or at the end). -/
 theorem nodes_exact_rendered_partial (h : diag sn comps edges cfg group heat = .ok d)
-    (hcolon : ∀ c ∈ comps, ':' ∉ c.name.toList) :
-    (d.nodeNames.map renderedId).Perm (comps.map (·.name) ++ (if heat.isSome then ["Scale"] else [])) := by
+    (hok : ∀ c ∈ comps, nameOk c.name = true) :
+    (d.nodeNames.map renderedId).Perm
+      ((comps.map (·.name) ++ (if heat.isSome then [legendName comps] else [])).map some) := by
   have hp := (nodes_exact h).map renderedId
   refine hp.trans (List.Perm.of_eq ?_)
-  refine (List.map_congr_left ?_).trans (List.map_id _)
+  apply List.map_congr_left
   intro n hn
   rcases List.mem_append.mp hn with hn | hn
   · obtain ⟨c, hc, rfl⟩ := List.mem_map.mp hn
-    exact renderedId_of_no_colon _ (hcolon c hc)
+    exact renderedId_eq _ (hok c hc)
   · split_ifs at hn
     · simp only [List.mem_singleton] at hn
-      subst hn; decide
+      subst hn
+      exact renderedId_eq _ (legendName_ok comps)
     · simp at hn
 
-/-- the full statement: for every system with distinct component names, the node identifiers Graphviz ends up
-    with are the component names (plus `Scale`) -/
+/-- the edges join the rendered identifiers of parent and child -/
+theorem edges_rendered_partial (h : diag sn comps edges cfg group heat = .ok d)
+    (hok : ∀ e ∈ edges, nameOk e.1 = true ∧ nameOk e.2 = true) :
+    d.edges.map (fun e => (renderedId e.src, renderedId e.dst)) = edges.map (fun e => (some e.1, some e.2)) := by
+  have he := (edges_exact h).1
+  rw [← he, List.map_map]
+  apply List.map_congr_left
+  intro e hmem
+  have hm : (e.src, e.dst) ∈ edges := by rw [← he]; exact List.mem_map.mpr ⟨e, hmem, rfl⟩
+  obtain ⟨h1, h2⟩ := hok _ hm
+  simp [renderedId_eq _ h1, renderedId_eq _ h2]
+
+/-- the full statement: for every system, the node identifiers Graphviz ends up with are the component names
+    (plus the legend) -/
 def C19_nodes_full : Prop :=
   ∀ (sn : String) (comps : List CompIn) (edges : List (String × String)) (cfg : Config) (group : Bool)
     (heat : Option (HeatIn Rat)) (d : DotGraph),
-    (comps.map (·.name)).Nodup → diag sn comps edges cfg group heat = .ok d →
-    (d.nodeNames.map renderedId).Perm (comps.map (·.name) ++ (if heat.isSome then ["Scale"] else []))
+    diag sn comps edges cfg group heat = .ok d →
+    (d.nodeNames.map renderedId).Perm
+      ((comps.map (·.name) ++ (if heat.isSome then [legendName comps] else [])).map some)
 
-def f23Comps : List CompIn := [⟨"A:x", .source, ""⟩, ⟨"A:y", .iload, ""⟩]
+def f23fComps : List CompIn := [⟨"S", .source, ""⟩, ⟨"a\\", .iload, ""⟩]
 
 instance : Inhabited DotGraph := ⟨⟨"", [], [], [], none, []⟩⟩
 
-def f23Graph : DotGraph :=
-  match diag "s" f23Comps [("A:x", "A:y")] {} true none with
+def f23fGraph : DotGraph :=
+  match diag "s" f23fComps [("S", "a\\")] {} true none with
   | .ok d => d
   | .error _ => default
 
-/-- **F23.** `A:x` and `A:y` are both read as node `A`: the statement fails for the code as it stands. -/
+/-- **F23f.** A name ending in a backslash (`a\`) cannot be written as a DOT identifier: `_q` produces `"a\"`,
+    whose closing quote Graphviz reads as an escaped one — the statement fails for the code as it stands. -/
 theorem c19_nodes_full_fails : ¬ C19_nodes_full := by
   intro hfull
-  have hd : diag "s" f23Comps [("A:x", "A:y")] {} true none = .ok f23Graph := by decide +kernel
-  have hp := hfull "s" f23Comps [("A:x", "A:y")] {} true none f23Graph (by decide) hd
-  have e : f23Graph.nodeNames.map renderedId = ["A", "A"] := by decide +kernel
+  have hd : diag "s" f23fComps [("S", "a\\")] {} true none = .ok f23fGraph := by decide +kernel
+  have hp := hfull "s" f23fComps [("S", "a\\")] {} true none f23fGraph hd
+  have e : f23fGraph.nodeNames.map renderedId = [some "S", none] := by decide +kernel
   rw [e] at hp
-  have : "A" ∈ (f23Comps.map (·.name) ++ (if (none : Option (HeatIn Rat)).isSome then ["Scale"] else [])) :=
+  have : (none : Option String) ∈
+      ((f23fComps.map (·.name) ++ (if (none : Option (HeatIn Rat)).isSome then [legendName f23fComps] else [])).map some) :=
     hp.mem_iff.mp (by simp)
-  revert this
-  decide
+  simp at this
 
 /-! ### non-vacuity: a concrete small system -/
 
@@ -515,6 +584,15 @@ example : |niceVal (12345/10) - 12345/10| ≤ (1/2) * (10:ℚ) ^ (decade (12345/
   nice_float_3sig _ (by norm_num)
 -- a mix of 1/4 is a rounding tie on the red channel (88.5 → 88)
 example : gcolor (1/4) = .ok "#581cc3" := by decide +kernel
+-- the repaired code: explicit label, fresh legend name, quoted identifiers, clamped mix
+example : attrOf (diag "x" exComps exEdges exCfg true none) "R" "label" = some "R" := by decide +kernel
+example : namesOf (diag "x" [⟨"Scale", .source, ""⟩, ⟨"Scale_", .iload, ""⟩] [("Scale", "Scale_")] {} true
+    (some { rows := ["Scale", "Scale_"], phases := [], loss := [[0, 1/2]] })) = some ["Scale", "Scale_", "Scale__"] := by
+  decide +kernel
+example : [renderedId "A:x", renderedId "node", renderedId "a\"b", renderedId "<ab>", renderedId "x\\y{|}"]
+    = [some "A:x", some "node", some "a\"b", some "<ab>", some "x\\y{|}"] := by decide +kernel
+example : renderedId "a\\" = none ∧ renderedId "b\\\"c" = none ∧ renderedId "a\\\\" = some "a\\\\" := by decide +kernel
+example : gcolor (-1/100000000) = .ok "#2120ff" ∧ gcolor 7 = .ok "#ff1210" := by decide +kernel
 -- errors of the real code are errors of the model
 example : (diag "x" exComps exEdges { graph := some [] } true none).toOption = none := by decide +kernel
 
